@@ -113,13 +113,16 @@ func (c fakeClient) Stream(context.Context, client.Request, ...client.CallOption
 func clientRun(stream, outlierPath bool) func(r vReq, handler func() error) vOut {
 	return func(r vReq, handler func() error) vOut {
 		var opts []Option
-		if r.Extractor {
-			opts = append(opts, WithClientResourceExtractor(func(context.Context, client.Request) string { return "custom-micro-c" }),
-				WithStreamClientResourceExtractor(func(context.Context, client.Request) string { return "custom-micro-c" }))
+		// only the options of the call kind under test are set (a wrapper configured for streams only, or for calls only)
+		if r.Extractor && stream {
+			opts = append(opts, WithStreamClientResourceExtractor(func(context.Context, client.Request) string { return "custom-micro-c" }))
+		} else if r.Extractor {
+			opts = append(opts, WithClientResourceExtractor(func(context.Context, client.Request) string { return "custom-micro-c" }))
 		}
-		if r.Fallback {
-			opts = append(opts, WithClientBlockFallback(func(context.Context, client.Request, *base.BlockError) error { return errFallback }),
-				WithStreamClientBlockFallback(func(context.Context, client.Request, *base.BlockError) (client.Stream, error) { return nil, errFallback }))
+		if r.Fallback && stream {
+			opts = append(opts, WithStreamClientBlockFallback(func(context.Context, client.Request, *base.BlockError) (client.Stream, error) { return nil, errFallback }))
+		} else if r.Fallback {
+			opts = append(opts, WithClientBlockFallback(func(context.Context, client.Request, *base.BlockError) error { return errFallback }))
 		}
 		if outlierPath {
 			opts = append(opts, WithEnableOutlier(func(context.Context) bool { return true }))
@@ -137,13 +140,15 @@ func clientRun(stream, outlierPath bool) func(r vReq, handler func() error) vOut
 func clientInstance(stream, outlierPath bool) func(ext, fb bool) func(func() error) vOut {
 	return func(ext, fb bool) func(func() error) vOut {
 		var opts []Option
-		if ext {
-			opts = append(opts, WithClientResourceExtractor(func(context.Context, client.Request) string { return "custom-micro-c" }),
-				WithStreamClientResourceExtractor(func(context.Context, client.Request) string { return "custom-micro-c" }))
+		if ext && stream {
+			opts = append(opts, WithStreamClientResourceExtractor(func(context.Context, client.Request) string { return "custom-micro-c" }))
+		} else if ext {
+			opts = append(opts, WithClientResourceExtractor(func(context.Context, client.Request) string { return "custom-micro-c" }))
 		}
-		if fb {
-			opts = append(opts, WithClientBlockFallback(func(context.Context, client.Request, *base.BlockError) error { return errFallback }),
-				WithStreamClientBlockFallback(func(context.Context, client.Request, *base.BlockError) (client.Stream, error) { return nil, errFallback }))
+		if fb && stream {
+			opts = append(opts, WithStreamClientBlockFallback(func(context.Context, client.Request, *base.BlockError) (client.Stream, error) { return nil, errFallback }))
+		} else if fb {
+			opts = append(opts, WithClientBlockFallback(func(context.Context, client.Request, *base.BlockError) error { return errFallback }))
 		}
 		if outlierPath {
 			opts = append(opts, WithEnableOutlier(func(context.Context) bool { return true }))
